@@ -80,11 +80,11 @@ class Patches:
 
         indexing = self.base.indexing
 
+        # Number of voxels of each patch without overlap: the smallest uniform size for
+        # which the patches cover the image. NOTE: Use integer arithmetic; converting
+        # the metric patch size to voxels may overshoot by one voxel due to round-off.
         patch_dimensions_voxels = [
-            self.base.coordinatesystem.num_voxels(
-                length=patch_dimensions_metric[i],
-                axis=darsia.to_cartesian_indexing(i, indexing),
-            )
+            -(-self.base.num_voxels[i] // self.num_patches[i])
             for i in range(self.num_active_spatial_axes)
         ]
 
